@@ -82,6 +82,10 @@ def configs(tier):
         for I0, R0 in graphs.automorphism_reduced_ics(g):
             if len(R0) <= 1:
                 out.append(dict(entry='get_infected_nodes', family='infnodes', graph=g, I0=I0, R0=R0, tags=['infnodes', g]))
+                if len(I0) == 1 and len(R0) <= 1 and g in ('P3', 'K3'):
+                    # scalar forms (a single node instead of a collection) and the documented default (one random non-recovered node)
+                    out.append(dict(entry='get_infected_nodes', family='infnodes', graph=g, I0=I0, R0=R0, scalar=True, tags=['infnodes', g, 'scalar']))
+                    out.append(dict(entry='get_infected_nodes', family='infnodes', graph=g, I0=I0, R0=R0, default_ic=True, scalar=bool(R0), tags=['infnodes', g, 'default']))
     for k in (1, 2, 3) + ((4,) if tier == 'thorough' else ()):
         for tmax in ('inf', 'sym'):
             out.append(dict(entry='myQueue', family='queue', k=k, tmax=tmax, tags=['queue']))
@@ -379,7 +383,32 @@ def run_infnodes(h, cfg):
         kw = {'initial_infecteds': list(r.I0)}
         if r.R0:
             kw['initial_recovereds'] = list(r.R0)
+        if cfg.get('scalar'):
+            kw = {k_: v[0] for k_, v in kw.items()}
+        n0 = len(eng.log)
+        if cfg.get('default_ic'):
+            kw.pop('initial_infecteds')
+            # bound: at most 2 rejected picks (the scheduler could otherwise pick a recovered node for ever)
+            stub = r.sim.random
+            state = {'n': 0}
+
+            def script_choice(n, seq):
+                if sorted(map(str, seq)) != sorted(map(str, r.nodes)):
+                    return None
+                state['n'] += 1
+                if state['n'] > 2:
+                    return [i for i, x in enumerate(seq) if x not in r.R0][0]
+                return None
+            stub.script_choice = script_choice
         res = h.call_must_succeed('no-exception', r.EoN.get_infected_nodes, r.G, r.tau, r.gamma, **kw)
+        if cfg.get('default_ic') and res is not None:
+            # the start node: uniform choices over ALL nodes, repeated while the pick is initially recovered; the accepted pick starts it
+            picks = [e for e in eng.log[n0:] if e[0] == 'choice' and sorted(map(str, e[1])) == sorted(map(str, r.nodes))]
+            if not picks or any(e[1][e[2]] not in r.R0 for e in picks[:-1]) or picks[-1][1][picks[-1][2]] in r.R0:
+                h.fail('default-start-node', {'picks': [str(e[1][e[2]]) for e in picks], 'recovered': [str(x) for x in r.R0]})
+                return None
+            h.require('default-start-node', True)
+            r.I0 = [picks[-1][1][picks[-1][2]]]
     finally:
         r.sim.directed_percolate_network = real
     if res is None:
